@@ -70,6 +70,34 @@ type Run struct {
 	Deadline    time.Time
 	known       map[string]string
 	unstable    int
+	unstableBy  map[string]int
+	probe       bool
+	// Recheck, when set, re-executes a violation from its description (on a fresh instance,
+	// reporting into a Probe run) and says whether the same class came out again. It is used
+	// for violations reported without their own recheck function.
+	Recheck func(v Violation) bool
+}
+
+// Probe returns a scratch run with the same identity: violations reported into it are only
+// collected (no recheck, no known-finding matching, no budget).
+func (r *Run) Probe() *Run {
+	return &Run{ID: r.ID, Tier: r.Tier, Seed: r.Seed, Start: time.Now(), maxSamples: 0, probe: true,
+		outcomes: map[string]int64{}, vioSeen: map[string]bool{}, knownHit: map[string]string{},
+		Exhaustive: true, Bounds: map[string]any{}, Extra: map[string]any{}, known: map[string]string{}}
+}
+
+func (r *Run) IsProbe() bool { return r.probe }
+
+// Has reports whether a violation of this class was recorded.
+func (r *Run) Has(class string) bool {
+	r.mu.Lock()
+	defer r.mu.Unlock()
+	for _, v := range r.violations {
+		if v.Class == class {
+			return true
+		}
+	}
+	return false
 }
 
 func NewRun(id, tier string) *Run {
@@ -140,14 +168,25 @@ func (r *Run) Violate(v Violation, recheck func() bool) {
 		return
 	}
 	r.vioSeen[v.Class] = true
+	rc := r.Recheck
 	r.mu.Unlock()
+	if recheck == nil && rc != nil && !r.probe {
+		recheck = func() bool { return rc(v) }
+	}
 	if recheck != nil {
 		for i := 0; i < 5; i++ {
 			if !recheck() {
 				r.mu.Lock()
 				r.unstable++
+				if r.unstableBy == nil {
+					r.unstableBy = map[string]int{}
+				}
+				r.unstableBy[v.Class]++
+				if r.unstableBy[v.Class] < 3 {
+					delete(r.vioSeen, v.Class) // a later, reproducible instance of the class is still reported
+				}
 				r.Exhaustive = false
-				r.Caps = append(r.Caps, "unstable failure not reproduced: "+v.Class)
+				r.Caps = append(r.Caps, fmt.Sprintf("unstable failure not reproduced on re-execution (%d/5): %s: %.300s", i, v.Class, v.Msg))
 				r.mu.Unlock()
 				return
 			}
